@@ -53,3 +53,33 @@ Example C01_example :
     Some (PDict [(PStr (s2b "v"), PInt (-64));
                  (PStr (s2b "next"), PDict [(PStr (s2b "v"), PInt 300); (PStr (s2b "next"), PNone)])]).
 Proof. repeat split; vm_compute; reflexivity. Qed.
+
+(** ---- the Python-value layer (proofs/ElabProofs.v) ---- *)
+From FA Require Import model.Float model.Conform proofs.ElabProofs.
+Close Scope string_scope.
+
+(** whatever the writer elaborates from well-formed Python data under a well-formed schema is a well-typed wire
+    value whose typing height is at most the elaboration fuel.  [wf_py]: bytes in 0..255, str valid UTF-8, lengths
+    below 2^63, dict keys unique; [wf_schema]/[wf_env]: defaults are well-formed data, fewer than 2^63 branches /
+    symbols; [floats_ok a]: every binary32/64 pattern in [a] is in range -- that d2s/z2d only produce such patterns
+    rests on SpecFloat.binary_round and is not proved (the correspondence evaluates floats_ok on every case). *)
+Theorem C01_elab_typed : forall f o e s v a,
+  elab f o e s v = WOk a -> wf_env e = true -> wf_schema s = true -> wf_py v = true -> floats_ok a = true ->
+  exists n, (n <= f)%nat /\ typedn n e s a.
+Proof. exact elab_typed. Qed.
+Print Assumptions C01_elab_typed.
+
+(** hence the round trip with the ELABORATION fuel as the bound: what schemaless_writer wrote for [v] is read back
+    as [py_of a], consuming exactly the written bytes, with anything following on the stream *)
+Theorem C01_roundtrip_conforming : forall f wo ro e s v a pv,
+  elab f wo e s v = WOk a -> wf_env e = true -> wf_schema s = true -> wf_py v = true -> floats_ok a = true ->
+  py_of ro e s a = Some pv ->
+  write f wo e s v = WOk (wire a) /\
+  forall f', (f <= f')%nat -> forall r, read f' ro e s (wire a ++ r) = Ok (pv, r).
+Proof.
+  intros f wo ro e s v a pv He Hwe Hws Hwv Hfl Hp.
+  assert (Hw : write f wo e s v = WOk (wire a)) by (unfold write; rewrite He; reflexivity).
+  split; [exact Hw|]. intros f' Hf r.
+  exact (C01_roundtrip f wo ro e s v a (wire a) pv Hw He (elab_typedn f wo e s v a He Hwe Hws Hwv Hfl) Hp f' Hf r).
+Qed.
+Print Assumptions C01_roundtrip_conforming.
